@@ -301,6 +301,9 @@ impl<'tcx> M<'tcx> {
         if !tcx.is_mir_available(inst.def_id()) {
             return unsup(format!("no MIR for {}", rname));
         }
+        if tcx.crate_name(inst.def_id().krate).as_str() == "vek" {
+            self.visited.insert(tcx.def_path(inst.def_id()).to_string_no_crate_verbose());
+        }
         self.run_instance(inst, vals)
     }
 
